@@ -285,9 +285,7 @@ def rule_Q4(ctx) -> None:
         ctx.inconclusive("Q4", "delta_to_json:sign-is-literal", "no path for a negative duration found", mod.loc(de))
     # parser: one numeric conversion of the whole text, or explicit sign handling when the text is split
     fdi = mod.func("Message._from_dict_init")
-    sites = [mod.func("Message._from_dict_init")]
-    if mod.has("_Duration.delta_from_json"):
-        sites.append(mod.func("_Duration.delta_from_json"))
+    sites = _duration_text_sites(mod)
     bad = None
     for fn in sites:
         src = ast.unparse(fn)
@@ -304,6 +302,59 @@ def rule_Q4(ctx) -> None:
                     "M().from_json('{\"d\": \"-1.500s\"}')")
     else:
         ctx.proved("Q4", "duration-parser:negative-durations", mod.loc(fdi))
+    rule_Q4c(ctx)
+
+
+def _duration_text_sites(mod) -> List[ast.AST]:
+    """_from_dict_init and the helpers it calls (methods of the Duration shim or module functions) that build a timedelta"""
+    fdi = mod.func("Message._from_dict_init")
+    sites = [fdi]
+    for c in ast.walk(fdi):
+        if isinstance(c, ast.Call):
+            q = ast.unparse(c.func)
+            if mod.has(q) and any(isinstance(x, (ast.FunctionDef,)) for x in mod.defs[q]):
+                h = mod.func(q)
+                if any(isinstance(n, ast.Call) and ast.unparse(n.func) == "timedelta" for n in ast.walk(h)) and h not in sites:
+                    sites.append(h)
+    return sites
+
+
+def _strips_suffix(e: ast.AST) -> bool:
+    """text[:-1] / text.rstrip('s') / text.removesuffix('s'): the Duration text without its unit"""
+    if isinstance(e, ast.Subscript) and isinstance(e.slice, ast.Slice) and e.slice.lower is None and e.slice.upper is not None \
+            and ast.unparse(e.slice.upper) == "-1":
+        return True
+    if isinstance(e, ast.Call) and isinstance(e.func, ast.Attribute) and e.func.attr in ("rstrip", "removesuffix", "strip") and e.args \
+            and isinstance(e.args[0], ast.Constant) and e.args[0].value == "s":
+        return True
+    return False
+
+
+def rule_Q4c(ctx) -> None:
+    """the Duration text is converted exactly: the whole decimal text never goes through float()
+    (a double has 53 bits; the Duration range of +-315576000000 s at microsecond resolution needs 59)"""
+    mod = ctx.repo.mod(M_INIT)
+    sites = _duration_text_sites(mod)
+    bad = None
+    n = 0
+    for fn in sites:
+        whole = set()
+        for st in ast.walk(fn):
+            if isinstance(st, ast.Assign) and len(st.targets) == 1 and isinstance(st.targets[0], ast.Name) and _strips_suffix(st.value):
+                whole.add(st.targets[0].id)
+        for c in ast.walk(fn):
+            if isinstance(c, ast.Call) and ast.unparse(c.func) in ("float", "Decimal.__float__") and c.args:
+                a = c.args[0]
+                n += 1
+                if _strips_suffix(a) or (isinstance(a, ast.Name) and a.id in whole):
+                    bad = (fn, c)
+    fdi = sites[0]
+    if bad:
+        ctx.refuted("Q4", "duration-parser:exact", "whole-text-through-float", mod.loc(bad[1]),
+                    f"the Duration text is converted with {ast.unparse(bad[1])[:60]}: a double cannot hold every value of the Duration range at microsecond resolution "
+                    "(|seconds| above about 8.5e9, 272 years, lose the last digit)", "M().from_json('{\"d\": \"8640000000.999999s\"}')")
+    else:
+        ctx.proved("Q4", "duration-parser:exact", mod.loc(fdi), f"{len(sites)} functions, {n} float() conversions, none on the whole text")
 
 
 def run(ctx) -> None:
